@@ -96,52 +96,74 @@ theorem shiftBy_getD (ids : List (List Nat)) (offsets : List Nat) (hlen : offset
   generalize offsets.getD k 0 = o
   simp [List.getD_eq_getElem?_getD, List.getElem?_map, List.getElem?_eq_getElem hi]
 
+/-- the shifted array of probe `k` for offsets of any length (`zip` truncates) -/
+private theorem shiftBy_getD_gen (ids : List (List Nat)) (offsets : List Nat) (k : Nat) :
+    (shiftBy ids offsets).getD k [] =
+      if k < offsets.length then (ids.getD k []).map (· + offsets.getD k 0) else [] := by
+  by_cases hk : k < ids.length
+  · by_cases hk' : k < offsets.length
+    · simp [shiftBy, List.getD_eq_getElem?_getD, List.getElem?_map, zip_getElem? _ _ k hk hk',
+        List.getElem?_eq_getElem hk, hk']
+    · have h2 : (shiftBy ids offsets)[k]? = none := by
+        apply List.getElem?_eq_none
+        simp [shiftBy]; omega
+      simp [List.getD_eq_getElem?_getD, h2, hk']
+  · have h1 : ids[k]? = none := List.getElem?_eq_none (Nat.le_of_not_lt hk)
+    have h2 : (shiftBy ids offsets)[k]? = none := by
+      apply List.getElem?_eq_none
+      simp [shiftBy]; omega
+    simp [List.getD_eq_getElem?_getD, h1, h2]
+
 /-- offsets that are prefix sums of sizes exceeding every id of their probe keep the shifted ids
 of different probes apart -/
-theorem sized_ids_disjoint (ids : List (List Nat)) (sizes : List Nat) (hlen : sizes.length = ids.length)
-    (hsz : ∀ k, ∀ a ∈ ids.getD k [], a < sizes.getD k 0) (k l : Nat) (hkl : k < l) (hl : l < ids.length) :
+theorem sized_ids_disjoint (ids : List (List Nat)) (sizes : List Nat)
+    (hsz : ∀ k, k < sizes.length → ∀ a ∈ ids.getD k [], a < sizes.getD k 0) (k l : Nat) (hkl : k < l) :
     ∀ a ∈ (shiftBy ids (sizeOffsetsFrom 0 sizes)).getD k [],
       ∀ b ∈ (shiftBy ids (sizeOffsetsFrom 0 sizes)).getD l [], a < b := by
-  have hlen' : (sizeOffsetsFrom 0 sizes).length = ids.length := by
-    rw [sizeOffsetsFrom_length]; exact hlen
   intro a ha b hb
-  rw [shiftBy_getD_eq ids _ hlen' k, sizeOffsets_prefix sizes k (by omega)] at ha
-  rw [shiftBy_getD_eq ids _ hlen' l, sizeOffsets_prefix sizes l (by omega)] at hb
-  rcases List.mem_map.mp ha with ⟨a0, ha0, rfl⟩
-  rcases List.mem_map.mp hb with ⟨b0, hb0, rfl⟩
-  have h1 := hsz k a0 ha0
-  have h2 := take_sum_step sizes k l hkl (by omega)
-  show a0 + _ < b0 + _
-  omega
+  rw [shiftBy_getD_gen, sizeOffsetsFrom_length] at ha hb
+  by_cases hl : l < sizes.length
+  · rw [if_pos hl, sizeOffsets_prefix sizes l hl] at hb
+    rw [if_pos (by omega), sizeOffsets_prefix sizes k (by omega)] at ha
+    rcases List.mem_map.mp ha with ⟨a0, ha0, rfl⟩
+    rcases List.mem_map.mp hb with ⟨b0, hb0, rfl⟩
+    have h1 := hsz k (by omega) a0 ha0
+    have h2 := take_sum_step sizes k l hkl (by omega)
+    show a0 + _ < b0 + _
+    omega
+  · rw [if_neg hl] at hb; cases hb
 
 private theorem templateSizes_length (ids : List (List Nat)) (counts : List Nat)
     (hlen : counts.length = ids.length) : (templateSizes ids counts).length = ids.length := by
   simp [templateSizes, hlen]
 
-private theorem templateSizes_getD (ids : List (List Nat)) (counts : List Nat)
-    (hlen : counts.length = ids.length) (k : Nat) (hk : k < ids.length) :
+private theorem templateSizes_getD' (ids : List (List Nat)) (counts : List Nat)
+    (k : Nat) (hk : k < ids.length) (hk' : k < counts.length) :
     (templateSizes ids counts).getD k 0
       = max ((ids.getD k []).foldl max 0 + 1) (counts.getD k 0) := by
-  have hk' : k < counts.length := by omega
   simp [templateSizes, List.getD_eq_getElem?_getD, List.getElem?_map, zip_getElem? _ _ k hk hk',
     List.getElem?_eq_getElem hk, List.getElem?_eq_getElem hk']
 
+private theorem templateSizes_getD (ids : List (List Nat)) (counts : List Nat)
+    (hlen : counts.length = ids.length) (k : Nat) (hk : k < ids.length) :
+    (templateSizes ids counts).getD k 0
+      = max ((ids.getD k []).foldl max 0 + 1) (counts.getD k 0) :=
+  templateSizes_getD' ids counts k hk (by omega)
+
 /-- merged template ids of different probes never collide -/
-theorem template_ids_disjoint (ids : List (List Nat)) (counts : List Nat) (hlen : counts.length = ids.length)
-    (k l : Nat) (hkl : k < l) (hl : l < ids.length) :
+theorem template_ids_disjoint (ids : List (List Nat)) (counts : List Nat)
+    (k l : Nat) (hkl : k < l) :
     ∀ a ∈ (shiftBy ids (templateOffsets ids counts)).getD k [],
       ∀ b ∈ (shiftBy ids (templateOffsets ids counts)).getD l [], a < b := by
   unfold templateOffsets
-  apply sized_ids_disjoint ids (templateSizes ids counts) (templateSizes_length ids counts hlen)
-    _ k l hkl hl
-  intro j a ha
-  by_cases hj : j < ids.length
-  · rw [templateSizes_getD ids counts hlen j hj]
-    have := (foldl_max_ge (ids.getD j []) 0).2 a ha
+  apply sized_ids_disjoint ids (templateSizes ids counts) _ k l hkl
+  intro j hj a ha
+  have hj' : j < ids.length ∧ j < counts.length := by
+    have : j < min ids.length counts.length := by simpa [templateSizes] using hj
     omega
-  · have : ids.getD j [] = [] := by
-      simp [List.getD_eq_getElem?_getD, List.getElem?_eq_none (Nat.le_of_not_lt hj)]
-    rw [this] at ha; cases ha
+  rw [templateSizes_getD' ids counts j hj'.1 hj'.2]
+  have := (foldl_max_ge (ids.getD j []) 0).2 a ha
+  omega
 
 /-- when every template id is below its probe's template count, the template offsets are the
 summed template counts of the previous probes — the merged template numbering of C12 -/
